@@ -436,17 +436,27 @@ class Evaluator:
         cur = self.ev(init.children[0] if init.k == "VarDecl" else init.children[1], f, depth + 1)
         if cur is None:
             return None
-        for _ in range(6):
+        init_iv = cur
+        first = None
+        all_exact = cur.exact
+        for it in range(6):
             nxt = cur
             for c in comps:
                 e = self.ev(c.children[1], f, depth + 1)
                 step = arith(c.op[:-1], cur, e)
                 if step is None:
                     return None
+                all_exact = all_exact and e is not None and e.exact
                 nxt = hull(nxt, step)
+            if it == 0:
+                first = nxt
             if (nxt.lo, nxt.hi, nxt.lo_open, nxt.hi_open) == (cur.lo, cur.hi, cur.lo_open, cur.hi_open):
-                cur.exact = False
-                return self.refine(cur, ref, f, None) if False else cur
+                # Every value of the first iterate is attained (initial value after 0 rounds, one exact step after 1 round).  If the
+                # recurrence is already stable there and the single loop update leaves no gap next to the initial value, the fixpoint
+                # is attained point by point; otherwise only its bounds are known.
+                stable_at_first = first is not None and (first.lo, first.hi, first.lo_open, first.hi_open) == (cur.lo, cur.hi, cur.lo_open, cur.hi_open)
+                cur.exact = bool(all_exact and stable_at_first and len(comps) == 1)
+                return cur
             cur = nxt
         return None
 
